@@ -59,6 +59,8 @@ struct Log {
     evs: Mutex<Vec<Ev>>,
     /// every answered poll request (with or without messages): the logical clock for "the consumer is idle"
     polls: AtomicU64,
+    /// send_messages requests refused by the injected fault (the producer has to retry them)
+    refused_sends: AtomicU64,
 }
 impl Log {
     fn push(&self, e: Ev) {
@@ -97,6 +99,9 @@ fn tap_for(conn: u32, log: Arc<Log>) -> Tap {
                     }
                 }
             }
+        }
+        9101 => {
+            log.refused_sends.fetch_add(1, Ordering::SeqCst);
         }
         121 => {
             if req.len() >= 12 {
@@ -173,6 +178,7 @@ struct Settings {
     p_partitioning: u8, // 0 none (balanced default), 1 balanced, 2 partition id, 3 key
     p_partition: u32,
     client_encryption: bool,
+    p_fail_every: u32,
     calls: usize,
     // consumer
     group: bool,
@@ -197,6 +203,7 @@ impl Settings {
             p_partitioning: r.below(4) as u8,
             p_partition: 1 + r.below(partitions as u64) as u32,
             client_encryption: r.chance(1, 4),
+            p_fail_every: *r.pick(&[0u32, 0, 0, 2, 3]),
             calls: r.range(4, 14) as usize,
             group,
             members: if group && r.chance(1, 3) { 2 } else { 1 },
@@ -215,7 +222,7 @@ impl Settings {
     }
     fn class(&self) -> String {
         format!(
-            "{}p/{}{}/{:?}/{:?}/b{}/prod[b{:?},i{:?},k{}]{}",
+            "{}p/{}{}/{:?}/{:?}/b{}/prod[b{:?},i{:?},k{},f{}]{}",
             self.partitions,
             if self.group { "group" } else { "single" },
             self.members,
@@ -225,6 +232,7 @@ impl Settings {
             self.p_batch,
             self.p_interval_ms,
             self.p_partitioning,
+            self.p_fail_every,
             if self.client_encryption { "/enc" } else { "" }
         )
     }
@@ -287,6 +295,7 @@ const IDLE_MS: u64 = 350;
 const IDLE_POLLS: u64 = 40;
 
 pub struct Outcome {
+    pub refused_sends: u64,
     pub class: String,
     pub yields: usize,
     pub produced: usize,
@@ -301,6 +310,9 @@ pub struct Outcome {
 struct Tapped {
     inner: TcpClient,
     tap: Tap,
+    /// fault injection for the producer's retry path: every k-th send_messages request is refused before it is written (0 = never)
+    fail_every: u32,
+    sends: AtomicU64,
 }
 
 #[async_trait]
@@ -319,6 +331,14 @@ impl BinaryTransport for Tapped {
         self.send_raw_with_response(command.code(), command.to_bytes()).await
     }
     async fn send_raw_with_response(&self, code: u32, payload: Bytes) -> Result<Bytes, IggyError> {
+        if code == 101 && self.fail_every > 0 {
+            let n = self.sends.fetch_add(1, Ordering::SeqCst) + 1;
+            if n % self.fail_every as u64 == 0 {
+                // nothing was written: the request never reached the server
+                (self.tap.0)(9101, &payload, Err(0));
+                return Err(IggyError::CannotSendMessagesDueToClientDisconnection);
+            }
+        }
         let r = self.inner.send_raw_with_response(code, payload.clone()).await;
         match &r {
             Ok(b) => (self.tap.0)(code, &payload, Ok(&b[..])),
@@ -350,6 +370,10 @@ impl Client for Tapped {
 }
 
 async fn sdk_client(inst: &ServerInstance, conn: u32, log: &Arc<Log>, enc: Option<Arc<EncryptorKind>>) -> R<IggyClient> {
+    sdk_client_f(inst, conn, log, enc, 0).await
+}
+
+async fn sdk_client_f(inst: &ServerInstance, conn: u32, log: &Arc<Log>, enc: Option<Arc<EncryptorKind>>, fail_every: u32) -> R<IggyClient> {
     let config = TcpClientConfig {
         server_address: inst.tcp_addr.to_string(),
         auto_login: AutoLogin::Enabled(Credentials::UsernamePassword("iggy".into(), "iggy".into())),
@@ -359,7 +383,7 @@ async fn sdk_client(inst: &ServerInstance, conn: u32, log: &Arc<Log>, enc: Optio
         ..Default::default()
     };
     let inner = TcpClient::create(Arc::new(config)).map_err(|e| Stop::Inconclusive(format!("tcp client: {e}")))?;
-    let tapped = Tapped { inner, tap: tap_for(conn, log.clone()) };
+    let tapped = Tapped { inner, tap: tap_for(conn, log.clone()), fail_every, sends: AtomicU64::new(0) };
     timed("connect", Client::connect(&tapped)).await?.map_err(|e| Stop::Inconclusive(format!("connect: {e}")))?;
     Ok(IggyClient::create(Box::new(tapped), None, enc))
 }
@@ -445,7 +469,7 @@ async fn history_inner(hseed: u64, r: &mut Rng, set: &Settings, inst: &ServerIns
     let enc = if set.client_encryption { Some(Arc::new(EncryptorKind::Aes256Gcm(Aes256GcmEncryptor::new(&[7u8; 32]).map_err(|e| Stop::Inconclusive(e.to_string()))?))) } else { None };
 
     // ---------------------------------------------------------------- producer
-    let pclient = sdk_client(inst, 0, &log, enc.clone()).await?;
+    let pclient = sdk_client_f(inst, 0, &log, enc.clone(), set.p_fail_every).await?;
     let (ps, pt) = if set.names_numeric { ("1", "1") } else { ("s1", "t1") };
     let mut pb = pclient.producer(ps, pt).map_err(|e| Stop::Inconclusive(e.to_string()))?;
     pb = match set.p_batch {
@@ -462,6 +486,10 @@ async fn history_inner(hseed: u64, r: &mut Rng, set: &Settings, inst: &ServerIns
         2 => pb.partitioning(Partitioning::partition_id(set.p_partition)),
         _ => pb.partitioning(Partitioning::messages_key_u32(4242)),
     };
+    if set.p_fail_every > 0 {
+        // never two refusals in a row, three retries allowed: every batch must still arrive, once
+        pb = pb.send_retries(Some(3), Some(IggyDuration::from(1000u64)));
+    }
     let mut producer: IggyProducer = pb.build();
     timed("producer init", producer.init()).await?.map_err(|e| Stop::Inconclusive(format!("producer init: {e}")))?;
     let mut sent: Vec<Sent> = vec![];
@@ -772,7 +800,7 @@ async fn history_inner(hseed: u64, r: &mut Rng, set: &Settings, inst: &ServerIns
     let sample = json!({"history": format!("{hseed:016x}"), "settings": set.class(), "producer_calls": calls_desc.iter().take(6).collect::<Vec<_>>(), "produced": sent.len(), "in_consumed_partitions": total,
         "yielded": yields, "fetches": fetches, "commits_on_wire": commits, "recreations": recreations, "final_stored_offsets": format!("{final_stored:?}"),
         "events_excerpt": evs.iter().step_by((evs.len() / 10).max(1)).take(10).map(|e| format!("{e:?}")).collect::<Vec<_>>()});
-    Ok(Outcome { class: set.class(), yields, produced: sent.len(), recreations, commits, fetches, sample })
+    Ok(Outcome { refused_sends: log.refused_sends.load(Ordering::SeqCst), class: set.class(), yields, produced: sent.len(), recreations, commits, fetches, sample })
 }
 
 /// Waits until no commit has been seen on any tapped connection for a window scaled to the machine's current round-trip time
@@ -1016,6 +1044,9 @@ pub async fn run(ctx: &Ctx, rep: &mut ShardReport) {
                 }
                 if o.commits > 0 {
                     rep.event("history_with_wire_commits");
+                }
+                if o.refused_sends > 0 {
+                    rep.event_n("producer_send_refused_and_retried", o.refused_sends);
                 }
                 if rep.samples.len() < 3 && o.recreations > 0 && o.yields > 5 {
                     rep.sample(o.sample);
